@@ -5,7 +5,7 @@ R="$1"; P="$2"
 for i in 1 2; do
   D=$R/$P/change$i
   [ -f $D/patch.diff ] || continue
-  /verif/tools/confirm_seed.sh $D r4_${P}_$i > $D/confirm.log 2>&1
-  /verif/tools/try_seed_wt.sh $D/patch.diff r4_${P}_$i $P --tier quick > $D/try.log 2>&1
+  /verif/tools/confirm_seed.sh $D r5_${P}_$i > $D/confirm.log 2>&1
+  /verif/tools/try_seed_wt.sh $D/patch.diff r5_${P}_$i $P --tier quick > $D/try.log 2>&1
   echo "$P change$i confirm: $(cut -c1-120 $D/confirm.json 2>/dev/null) :: $(grep -v '^  ' $D/try.log | tail -2 | tr '\n' ' ' | cut -c1-200)"
 done
